@@ -13,8 +13,8 @@ PROPS = {
     "C09": {
         "case_sets": ["lex"],
         "ops": ["SCAN", "NUM"],
-        "lean_targets": ["PqlModel.Props.C09", "PqlModel.Props.C09b", "PqlModel.Props.C09Gaps", "PqlModel.Props.C09Dispatch", "PqlModel.Props.C09NumberIR"],
-        "facts": ["keywords", "isAlphaRanges", "isDigitRanges", "isHexDigitRanges", "tokenKinds", "scanCases", "scanDefault", "identCont", "identKind", "identKeywordClearsValue", "stringQuotes", "stringCases", "stringDefault", "stringEscapes", "stringEscapeDefault", "quotedIdentShape", "lexNumberIR", "litAccessIR"],
+        "lean_targets": ["PqlModel.Props.C09", "PqlModel.Props.C09b", "PqlModel.Props.C09Gaps", "PqlModel.Props.C09Dispatch", "PqlModel.Props.C09NumberIR", "PqlModel.Props.IRHeadlinesD", "PqlModel.Props.C09ScanIR"],
+        "facts": ["keywords", "isAlphaRanges", "isDigitRanges", "isHexDigitRanges", "tokenKinds", "scanCases", "scanDefault", "identCont", "identKind", "identKeywordClearsValue", "stringQuotes", "stringCases", "stringDefault", "stringEscapes", "stringEscapeDefault", "quotedIdentShape", "lexNumberIR", "litAccessIR", "lexScanIR"],
         "rule": "SCAN: every string over the 25-symbol scanner alphabet up to length 3 (quick) / 4 (thorough), "
                 "plus random concatenations of lexeme fragments and raw bytes; non-trivial = distinct source "
                 "with at least two tokens or an error token. RESCAN/NUM: every token text met on the way.",
@@ -23,8 +23,8 @@ PROPS = {
     "C15": {
         "case_sets": ["lex", "parse"],
         "ops": ["SPLIT", "PIECES"],
-        "lean_targets": ["PqlModel.Props.C15", "PqlModel.Props.C15Parse", "PqlModel.Props.C16Semantics", "PqlModel.Props.C09Dispatch", "PqlModel.Props.C15SplitIR", "PqlModel.Props.C07OperatorIRParse"],
-        "facts": ["keywords", "lexSplitIR", "parseIR"],
+        "lean_targets": ["PqlModel.Props.C15", "PqlModel.Props.C15Parse", "PqlModel.Props.C16Semantics", "PqlModel.Props.C09Dispatch", "PqlModel.Props.C15SplitIR", "PqlModel.Props.C07OperatorIRParse", "PqlModel.Props.IRHeadlinesD", "PqlModel.Props.C09ScanIR"],
+        "facts": ["keywords", "lexSplitIR", "parseIR", "lexScanIR"],
         "rule": "SPLIT: same sources as C09 (exhaustive short strings over the scanner alphabet, which contains ';', all "
                 "three quote characters, backslash, newline and the comment opener, plus random fragment concatenations); "
                 "non-trivial = distinct source that splits into at least two pieces or contains a semicolon that does not split",
@@ -33,7 +33,7 @@ PROPS = {
         "case_sets": ["parse"],
         "ops": ["PARSE", "PARSEV"],
         "oracle_clauses": [r"c07-.*", r"c08-unaccounted", r"c15-statement-count", r"unreadable-.*"],
-        "lean_targets": ["PqlModel.Props.C07", "PqlModel.Props.C07Full", "PqlModel.Props.C07Layout", "PqlModel.Props.C07Keywords", "PqlModel.Props.C07Defaults", "PqlModel.Props.C07OperatorIRTreesA", "PqlModel.Props.C07OperatorIRTreesB", "PqlModel.Props.C07OperatorIR", "PqlModel.Props.C07OperatorIRSort", "PqlModel.Props.C07OperatorIRExtend", "PqlModel.Props.C07OperatorIRProject", "PqlModel.Props.C07OperatorIRLet", "PqlModel.Props.C07OperatorIRTabular", "PqlModel.Props.C07OperatorIRSummarize", "PqlModel.Props.C07OperatorIRRender", "PqlModel.Props.C07OperatorIRJoin", "PqlModel.Props.C07OperatorIRParse", "PqlModel.Props.C07ExprIR", "PqlModel.Props.C07ParserIR", "PqlModel.Props.C07OperatorIRTerm", "PqlModel.Props.C08ErrIRUnits", "PqlModel.Props.C08ErrIRAlgebra", "PqlModel.Props.C08ErrIRShape", "PqlModel.Props.C08ErrIR"],
+        "lean_targets": ["PqlModel.Props.C07", "PqlModel.Props.C07Full", "PqlModel.Props.C07Layout", "PqlModel.Props.C07Keywords", "PqlModel.Props.C07Defaults", "PqlModel.Props.C07OperatorIRTreesA", "PqlModel.Props.C07OperatorIRTreesB", "PqlModel.Props.C07OperatorIR", "PqlModel.Props.C07OperatorIRSort", "PqlModel.Props.C07OperatorIRExtend", "PqlModel.Props.C07OperatorIRProject", "PqlModel.Props.C07OperatorIRLet", "PqlModel.Props.C07OperatorIRTabular", "PqlModel.Props.C07OperatorIRSummarize", "PqlModel.Props.C07OperatorIRRender", "PqlModel.Props.C07OperatorIRJoin", "PqlModel.Props.C07OperatorIRParse", "PqlModel.Props.C07ExprIR", "PqlModel.Props.C07ParserIR", "PqlModel.Props.C07OperatorIRTerm", "PqlModel.Props.C08ErrIRUnits", "PqlModel.Props.C08ErrIRAlgebra", "PqlModel.Props.C08ErrIRShape", "PqlModel.Props.C08ErrIR", "PqlModel.Props.IRHeadlinesC"],
         "facts": ["precedence", "keywords", "joinTypes", "operatorKeywords", "sortTermInit", "sortTermFirst", "sortTermNullsKeyword", "sortTermNulls", "rowCountCheck", "joinInit", "joinKindKeyword", "joinKindSets", "joinUnknownFlavorContinues", "parseIR", "exprParseIR", "exprParseParams", "exprParseResults", "errIR", "errTypes", "errSites"],
         "rule": "PARSEV: programs generated from the grammar (every operator, every expression form incl. the `in` rule, "
                 "nested joins, lets, render; random layout, comments, keyword synonyms, redundant and required parentheses); "
@@ -44,7 +44,7 @@ PROPS = {
         "case_sets": ["parse"],
         "ops": ["PARSE", "PARSEV"],
         "oracle_clauses": [r"c08-.*", r"unreadable-.*"],
-        "lean_targets": ["PqlModel.Props.C08", "PqlModel.Props.C08Full", "PqlModel.Props.C08Reject", "PqlModel.Props.C08RejectCx", "PqlModel.Props.C07OperatorIRTreesA", "PqlModel.Props.C07OperatorIRTreesB", "PqlModel.Props.C07OperatorIR", "PqlModel.Props.C07OperatorIRSort", "PqlModel.Props.C07OperatorIRExtend", "PqlModel.Props.C07OperatorIRProject", "PqlModel.Props.C07OperatorIRLet", "PqlModel.Props.C07OperatorIRTabular", "PqlModel.Props.C07OperatorIRSummarize", "PqlModel.Props.C07OperatorIRRender", "PqlModel.Props.C07OperatorIRJoin", "PqlModel.Props.C07OperatorIRParse", "PqlModel.Props.C07ExprIR", "PqlModel.Props.C08ErrIRUnits", "PqlModel.Props.C08ErrIRAlgebra", "PqlModel.Props.C08ErrIRShape", "PqlModel.Props.C08ErrIR"],
+        "lean_targets": ["PqlModel.Props.C08", "PqlModel.Props.C08Full", "PqlModel.Props.C08Reject", "PqlModel.Props.C08RejectCx", "PqlModel.Props.C07OperatorIRTreesA", "PqlModel.Props.C07OperatorIRTreesB", "PqlModel.Props.C07OperatorIR", "PqlModel.Props.C07OperatorIRSort", "PqlModel.Props.C07OperatorIRExtend", "PqlModel.Props.C07OperatorIRProject", "PqlModel.Props.C07OperatorIRLet", "PqlModel.Props.C07OperatorIRTabular", "PqlModel.Props.C07OperatorIRSummarize", "PqlModel.Props.C07OperatorIRRender", "PqlModel.Props.C07OperatorIRJoin", "PqlModel.Props.C07OperatorIRParse", "PqlModel.Props.C07ExprIR", "PqlModel.Props.C08ErrIRUnits", "PqlModel.Props.C08ErrIRAlgebra", "PqlModel.Props.C08ErrIRShape", "PqlModel.Props.C08ErrIR", "PqlModel.Props.IRHeadlinesC"],
         "facts": ["parseIR", "exprParseIR", "exprParseParams", "exprParseResults", "errIR", "errTypes", "errSites"],
         "rule": "same sources as C07; the oracle re-prints the implementation's tree and compares it with the reference "
                 "tokenizer's tokens of the source; non-trivial = distinct corrupted or generated source, accepted or rejected",
@@ -53,7 +53,7 @@ PROPS = {
         "case_sets": ["parse"],
         "ops": ["PARSE", "PARSEV", "LINECOL"],
         "oracle_clauses": [r"c10-.*", r"unreadable-.*"],
-        "lean_targets": ["PqlModel.Props.C10", "PqlModel.Props.C08Full", "PqlModel.Props.C10Linecol", "PqlModel.Props.C10Failed", "PqlModel.Props.C10Extent", "PqlModel.Props.C10Compile", "PqlModel.Props.C10SpanIR", "PqlModel.Props.C10SpanIRNodes", "PqlModel.Props.C10LinecolIR", "PqlModel.Props.C07OperatorIRTreesA", "PqlModel.Props.C07OperatorIRTreesB", "PqlModel.Props.C07OperatorIR", "PqlModel.Props.C07OperatorIRSort", "PqlModel.Props.C07OperatorIRExtend", "PqlModel.Props.C07OperatorIRProject", "PqlModel.Props.C07OperatorIRLet", "PqlModel.Props.C07OperatorIRTabular", "PqlModel.Props.C07OperatorIRSummarize", "PqlModel.Props.C07OperatorIRRender", "PqlModel.Props.C07OperatorIRJoin", "PqlModel.Props.C07OperatorIRParse", "PqlModel.Props.C08ErrIRUnits", "PqlModel.Props.C08ErrIRAlgebra", "PqlModel.Props.C08ErrIRShape", "PqlModel.Props.C08ErrIR"],
+        "lean_targets": ["PqlModel.Props.C10", "PqlModel.Props.C08Full", "PqlModel.Props.C10Linecol", "PqlModel.Props.C10Failed", "PqlModel.Props.C10Extent", "PqlModel.Props.C10Compile", "PqlModel.Props.C10SpanIR", "PqlModel.Props.C10SpanIRNodes", "PqlModel.Props.C10LinecolIR", "PqlModel.Props.C07OperatorIRTreesA", "PqlModel.Props.C07OperatorIRTreesB", "PqlModel.Props.C07OperatorIR", "PqlModel.Props.C07OperatorIRSort", "PqlModel.Props.C07OperatorIRExtend", "PqlModel.Props.C07OperatorIRProject", "PqlModel.Props.C07OperatorIRLet", "PqlModel.Props.C07OperatorIRTabular", "PqlModel.Props.C07OperatorIRSummarize", "PqlModel.Props.C07OperatorIRRender", "PqlModel.Props.C07OperatorIRJoin", "PqlModel.Props.C07OperatorIRParse", "PqlModel.Props.C08ErrIRUnits", "PqlModel.Props.C08ErrIRAlgebra", "PqlModel.Props.C08ErrIRShape", "PqlModel.Props.C08ErrIR", "PqlModel.Props.IRHeadlinesD"],
         "facts": ["structFields", "spanUnion", "astIR", "astSpanReturns", "linecolIR", "parseIR", "errIR", "errTypes", "errSites"],
         "rule": "same sources as C07 in multi-line / tab / comment / non-ASCII layouts; every span field and every Span() "
                 "result of every node (reflection) is compared with the model and checked against the token positions; "
@@ -63,7 +63,7 @@ PROPS = {
         "case_sets": ["walk"],
         "ops": ["WALK"],
         "oracle_clauses": [r"c11-.*", r"unreadable-.*"],
-        "lean_targets": ["PqlModel.Props.C11", "PqlModel.Props.C11b", "PqlModel.Props.C11Compile", "PqlModel.Props.C11WalkIRPushes", "PqlModel.Props.C11WalkIR"],
+        "lean_targets": ["PqlModel.Props.C11", "PqlModel.Props.C11b", "PqlModel.Props.C11Compile", "PqlModel.Props.C11WalkIRPushes", "PqlModel.Props.C11WalkIR", "PqlModel.Props.IRHeadlinesD"],
         "facts": ["structFields", "walkCases", "walkLoops", "walkDefaultPanics", "astIR", "astWalkCases", "astWalkLoops"],
         "rule": "WALK: grammar-generated programs (every node type in every child position) walked with a visitor that "
                 "always returns true and with pseudo-random pruning masks; non-trivial = distinct (source, mask) that parses",
@@ -72,8 +72,8 @@ PROPS = {
         "case_sets": ["parse", "compile", "walk", "lex", "weirdparams"],
         "ops": ["PARSE", "PARSEV", "SCAN", "SPLIT", "WALK", "COMPILE", "COMPILESEQ"],
         "oracle_clauses": [r"c12-.*"],
-        "lean_targets": ["PqlModel.Props.C12", "PqlModel.Props.C12Fuel", "PqlModel.Props.C13Exact", "PqlModel.Props.C10SpanIR", "PqlModel.Props.C11WalkIR", "PqlModel.Props.C12NoPanicIR"],
-        "facts": ["astIR", "parseIR", "lexNumberIR", "lexSplitIR", "linecolIR", "exprIR", "writeIR", "splitIR", "joinCondIR", "cliIR"],
+        "lean_targets": ["PqlModel.Props.C12", "PqlModel.Props.C12Fuel", "PqlModel.Props.C13Exact", "PqlModel.Props.C10SpanIR", "PqlModel.Props.C11WalkIR", "PqlModel.Props.C12NoPanicIR", "PqlModel.Props.IRHeadlines", "PqlModel.Props.C09ScanIR"],
+        "facts": ["astIR", "parseIR", "lexNumberIR", "lexSplitIR", "linecolIR", "exprIR", "writeIR", "splitIR", "joinCondIR", "cliIR", "lexScanIR"],
         "rule": "every case of the lexer, parser and walk sets runs under recover and a watchdog (5 s in the parallel pool, then 10 s alone before HANG is reported), including pathological "
                 "nesting of brackets, calls, indexes, signs, joins and error cascades up to a few KiB; non-trivial = distinct input",
         "assumptions": ["wall-clock time and stack exhaustion belong to the Go runtime: measured by the watchdog, not proved"],
@@ -82,7 +82,7 @@ PROPS = {
         "case_sets": ["compile"],
         "ops": ["COMPILE"],
         "oracle_clauses": [r"c01-.*", r"c05-lex", r"c05-parse", r"c05-brackets", r"c12-.*", r"unreadable-.*"],
-        "lean_targets": ["PqlModel.Props.C01", "PqlModel.Props.C01LexRender", "PqlModel.Props.C01Sem", "PqlModel.Props.C01Syntactic", "PqlModel.Props.C06Operand", "PqlModel.Props.C05ParseStatement", "PqlModel.Props.C01Templates", "PqlModel.Props.C02EndToEnd", "PqlModel.Props.C05Parsed", "PqlModel.Props.C02EndToEndSource", "PqlModel.Props.C05NoPlaceholder", "PqlModel.Props.C01WriteExprIR", "PqlModel.Props.C01WriteExprIRCases", "PqlModel.Props.C01WriteExprIRAll", "PqlModel.Props.C07ExprIR"],
+        "lean_targets": ["PqlModel.Props.C01", "PqlModel.Props.C01LexRender", "PqlModel.Props.C01Sem", "PqlModel.Props.C01Syntactic", "PqlModel.Props.C06Operand", "PqlModel.Props.C05ParseStatement", "PqlModel.Props.C01Templates", "PqlModel.Props.C02EndToEnd", "PqlModel.Props.C05Parsed", "PqlModel.Props.C02EndToEndSource", "PqlModel.Props.C05NoPlaceholder", "PqlModel.Props.C01WriteExprIR", "PqlModel.Props.C01WriteExprIRCases", "PqlModel.Props.C01WriteExprIRAll", "PqlModel.Props.C07ExprIR", "PqlModel.Props.IRHeadlinesA"],
         "facts": ["binaryOps", "builtinIdentifiers", "knownFunctions", "writerArityGuard", "writeTemplates", "maybeParenBare", "precedence", "exprIR", "exprFns", "exprParseIR", "exprParseParams", "exprParseResults"],
         "rule": "COMPILE: hand-written corpus of expression shapes (parentheses, signs, index, in, every built-in as operand of "
                 "every operator class) + grammar-generated programs with expressions in every position; the oracle re-reads "
@@ -93,7 +93,7 @@ PROPS = {
         "case_sets": ["content"],
         "ops": ["COMPILE", "COMPILE2", "QUOTE"],
         "oracle_clauses": [r"c04-.*", r"c05-lex", r"unreadable-.*"],
-        "lean_targets": ["PqlModel.Props.C04", "PqlModel.Props.C05LexStatement", "PqlModel.Props.C04Shape", "PqlModel.Props.C04ShapeQuery", "PqlModel.Props.C04ShapeCx", "PqlModel.Props.C04Numbers", "PqlModel.Props.C09NumberIR"],
+        "lean_targets": ["PqlModel.Props.C04", "PqlModel.Props.C05LexStatement", "PqlModel.Props.C04Shape", "PqlModel.Props.C04ShapeQuery", "PqlModel.Props.C04ShapeCx", "PqlModel.Props.C04Numbers", "PqlModel.Props.C09NumberIR", "PqlModel.Props.IRHeadlinesB"],
         "facts": ["litAccessIR", "lexNumberIR"],
         "rule": "QUOTE: both quoting functions on every string over a 13-symbol adversarial alphabet up to length 3 (quick) / 4 "
                 "(thorough) and random longer ones; COMPILE2: generated programs compiled twice with the contents of all string "
@@ -104,7 +104,7 @@ PROPS = {
         "case_sets": ["compile", "content"],
         "ops": ["COMPILE", "COMPILESEQ"],
         "oracle_clauses": [r"c05-.*", r"c01-keyword-function-name", r"unreadable-.*"],
-        "lean_targets": ["PqlModel.Props.C05", "PqlModel.Props.C02Split", "PqlModel.Props.C05SplitRefines", "PqlModel.Props.C05LexStatement", "PqlModel.Props.C02Semantics", "PqlModel.Props.C02Statement", "PqlModel.Props.C05ParseStatement", "PqlModel.Props.C02EndToEnd", "PqlModel.Props.C05Parsed", "PqlModel.Props.C02EndToEndSource", "PqlModel.Props.C05WriteIR", "PqlModel.Props.C05WriteIROps", "PqlModel.Props.C05WriteIRAll", "PqlModel.Props.C05WriteIRStmt", "PqlModel.Props.C02SplitImperative", "PqlModel.Props.C05NoPlaceholder", "PqlModel.Props.C05NoPlaceholderCli", "PqlModel.Props.C02SplitIR"],
+        "lean_targets": ["PqlModel.Props.C05", "PqlModel.Props.C02Split", "PqlModel.Props.C05SplitRefines", "PqlModel.Props.C05LexStatement", "PqlModel.Props.C02Semantics", "PqlModel.Props.C02Statement", "PqlModel.Props.C05ParseStatement", "PqlModel.Props.C02EndToEnd", "PqlModel.Props.C05Parsed", "PqlModel.Props.C02EndToEndSource", "PqlModel.Props.C05WriteIR", "PqlModel.Props.C05WriteIROps", "PqlModel.Props.C05WriteIRAll", "PqlModel.Props.C05WriteIRStmt", "PqlModel.Props.C02SplitImperative", "PqlModel.Props.C05NoPlaceholder", "PqlModel.Props.C05NoPlaceholderCli", "PqlModel.Props.C02SplitIR", "PqlModel.Props.IRHeadlinesB"],
         "facts": ["writeIR", "writeSwitches", "splitIR", "splitLoop", "splitCases", "splitParams"],
         "rule": "COMPILE on generated, corrupted-but-accepted and adversarial-content programs; the output must lex, end in one ';', "
                 "balance brackets, parse as [WITH …] select, read only source tables or earlier CTEs, have unique generated names, "
@@ -114,7 +114,7 @@ PROPS = {
         "case_sets": ["compile"],
         "ops": ["COMPILE", "COMPILESEQ"],
         "oracle_clauses": [r"c06-.*", r"unreadable-.*"],
-        "lean_targets": ["PqlModel.Props.C06", "PqlModel.Props.C06Subst", "PqlModel.Props.C14Order", "PqlModel.Props.C06Operand", "PqlModel.Props.C02EndToEndSource", "PqlModel.Props.C06Params", "PqlModel.Props.C06ParamsAtomic", "PqlModel.Props.C06ParamsExamples", "PqlModel.Props.C06Placeholders", "PqlModel.Props.C02ProgramNames", "PqlModel.Props.C06CompileIR"],
+        "lean_targets": ["PqlModel.Props.C06", "PqlModel.Props.C06Subst", "PqlModel.Props.C14Order", "PqlModel.Props.C06Operand", "PqlModel.Props.C02EndToEndSource", "PqlModel.Props.C06Params", "PqlModel.Props.C06ParamsAtomic", "PqlModel.Props.C06ParamsExamples", "PqlModel.Props.C06Placeholders", "PqlModel.Props.C02ProgramNames", "PqlModel.Props.C06CompileIR", "PqlModel.Props.IRHeadlinesB"],
         "facts": ["builtinIdentifiers", "exprIR", "exprFns", "writeIR"],
         "rule": "COMPILE with parameter maps (names colliding with columns, constants, let names) and let chains (shadowing, "
                 "redefinition, lets after the query, uses under signs, before [, in in-lists, join conditions, row counts); the "
@@ -125,7 +125,7 @@ PROPS = {
         "case_sets": ["compile"],
         "ops": ["COMPILE", "COMPILESEQ"],
         "oracle_clauses": [r"c13-.*", r"unreadable-.*"],
-        "lean_targets": ["PqlModel.Props.C13", "PqlModel.Props.C13Exact", "PqlModel.Props.C13Arity", "PqlModel.Props.C01WriteExprIRAll", "PqlModel.Props.C06CompileIR", "PqlModel.Props.C07OperatorIRTreesA", "PqlModel.Props.C07OperatorIRTreesB", "PqlModel.Props.C07OperatorIR", "PqlModel.Props.C07OperatorIRSort", "PqlModel.Props.C07OperatorIRExtend", "PqlModel.Props.C07OperatorIRProject", "PqlModel.Props.C07OperatorIRLet", "PqlModel.Props.C07OperatorIRTabular", "PqlModel.Props.C07OperatorIRSummarize", "PqlModel.Props.C07OperatorIRRender", "PqlModel.Props.C07OperatorIRJoin", "PqlModel.Props.C07OperatorIRParse"],
+        "lean_targets": ["PqlModel.Props.C13", "PqlModel.Props.C13Exact", "PqlModel.Props.C13Arity", "PqlModel.Props.C01WriteExprIRAll", "PqlModel.Props.C06CompileIR", "PqlModel.Props.C07OperatorIRTreesA", "PqlModel.Props.C07OperatorIRTreesB", "PqlModel.Props.C07OperatorIR", "PqlModel.Props.C07OperatorIRSort", "PqlModel.Props.C07OperatorIRExtend", "PqlModel.Props.C07OperatorIRProject", "PqlModel.Props.C07OperatorIRLet", "PqlModel.Props.C07OperatorIRTabular", "PqlModel.Props.C07OperatorIRSummarize", "PqlModel.Props.C07OperatorIRRender", "PqlModel.Props.C07OperatorIRJoin", "PqlModel.Props.C07OperatorIRParse", "PqlModel.Props.IRHeadlinesC"],
         "facts": ["writerArityGuard", "knownFunctions", "joinTypes", "exprIR", "parseIR"],
         "rule": "COMPILE on generated programs, the same with a token corrupted, and a corpus of every documented misuse; the oracle "
                 "evaluates the Misuse predicate on the parsed program and requires error iff (parse error or misuse); "
@@ -136,7 +136,7 @@ PROPS = {
         "ops": ["HIST", "FIRSTUSE", "COMPILESEQ"],
         "race": True,
         "oracle_clauses": [r"c14-.*", r"unreadable-.*"],
-        "lean_targets": ["PqlModel.Props.C14", "PqlModel.Props.C14Order", "PqlModel.Props.C06Params"],
+        "lean_targets": ["PqlModel.Props.C14", "PqlModel.Props.C14Order", "PqlModel.Props.C06Params", "PqlModel.Props.IRHeadlines"],
         "facts": ["pkgVars", "pkgVarWrites", "parameterMapWrites"],
         "rule": "HIST: one (source, parameters) pair compiled k times from each of 2-64 goroutines, interleaved with Parse/Scan "
                 "of the same source and Compile of other sources, in a race-detector build; every result must equal the model's "
@@ -149,7 +149,7 @@ PROPS = {
         "case_sets": ["cli"],
         "ops": ["CLI"],
         "oracle_clauses": [r"c16-.*", r"unreadable-.*"],
-        "lean_targets": ["PqlModel.Props.C16a", "PqlModel.Props.C16", "PqlModel.Props.C16IO", "PqlModel.Props.C16Semantics", "PqlModel.Props.C05NoPlaceholderCli", "PqlModel.Props.C16RunIR", "PqlModel.Props.C16IOIRTrees", "PqlModel.Props.C16IOIR", "PqlModel.Props.C16IOIRMake"],
+        "lean_targets": ["PqlModel.Props.C16a", "PqlModel.Props.C16", "PqlModel.Props.C16IO", "PqlModel.Props.C16Semantics", "PqlModel.Props.C05NoPlaceholderCli", "PqlModel.Props.C16RunIR", "PqlModel.Props.C16IOIRTrees", "PqlModel.Props.C16IOIR", "PqlModel.Props.C16IOIRMake", "PqlModel.Props.IRHeadlines", "PqlModel.Props.IRHeadlinesIO", "PqlModel.Props.C16StreamIR"],
         "facts": ["cliIR", "cliRunParams", "cliIOIR"],
         "rule": "CLI: the built cmd/pql binary on scripts (sequences of let / query / invalid statements, several per line, across "
                 "lines, comments, blank lines, CRLF, final statement terminated or not, lines around the 64 KiB limit) via stdin, "
@@ -161,7 +161,7 @@ PROPS = {
         "case_sets": ["eval"],
         "ops": ["EVAL"],
         "oracle_clauses": [r"c02-.*", r"c05-parse", r"c05-name-capture", r"unreadable-.*"],
-        "lean_targets": ["PqlModel.Props.C02", "PqlModel.Props.C02Split", "PqlModel.Props.C05SplitRefines", "PqlModel.Props.C02Semantics", "PqlModel.Props.C02Statement", "PqlModel.Props.C02SemanticsCex", "PqlModel.Props.C05ParseStatement", "PqlModel.Props.C03Full", "PqlModel.Props.C02EndToEnd", "PqlModel.Props.C05Parsed", "PqlModel.Props.C02EndToEndSource", "PqlModel.Props.C05WriteIR", "PqlModel.Props.C05WriteIROps", "PqlModel.Props.C05WriteIRAll", "PqlModel.Props.C05WriteIRStmt", "PqlModel.Props.C07Defaults", "PqlModel.Props.C02SplitImperative", "PqlModel.Props.C06Placeholders", "PqlModel.Props.C02ProgramNames", "PqlModel.Props.C02SplitIR", "PqlModel.Props.C03JoinCondIR", "PqlModel.Props.C07OperatorIRTerm"],
+        "lean_targets": ["PqlModel.Props.C02", "PqlModel.Props.C02Split", "PqlModel.Props.C05SplitRefines", "PqlModel.Props.C02Semantics", "PqlModel.Props.C02Statement", "PqlModel.Props.C02SemanticsCex", "PqlModel.Props.C05ParseStatement", "PqlModel.Props.C03Full", "PqlModel.Props.C02EndToEnd", "PqlModel.Props.C05Parsed", "PqlModel.Props.C02EndToEndSource", "PqlModel.Props.C05WriteIR", "PqlModel.Props.C05WriteIROps", "PqlModel.Props.C05WriteIRAll", "PqlModel.Props.C05WriteIRStmt", "PqlModel.Props.C07Defaults", "PqlModel.Props.C02SplitImperative", "PqlModel.Props.C06Placeholders", "PqlModel.Props.C02ProgramNames", "PqlModel.Props.C02SplitIR", "PqlModel.Props.C03JoinCondIR", "PqlModel.Props.C07OperatorIRTerm", "PqlModel.Props.IRHeadlinesA"],
         "facts": ["canAttachSortFalse", "writeIR", "writeSwitches", "sortTermInit", "sortTermFirst", "sortTermNullsKeyword", "sortTermNulls", "rowCountCheck", "splitIR", "splitLoop", "splitCases", "splitParams", "joinCondIR", "parseIR"],
         "rule": "EVAL: every sequence of up to 3 (quick) / 4 (thorough) of the eleven operators with fixed small arguments, a corpus of "
                 "order-sensitive pipelines and random generated pipelines over tables T U V; the emitted SQL is evaluated by the "
@@ -175,7 +175,7 @@ PROPS = {
         "ops": ["EVAL"],
         "line_regex": r"6a6f696e",      # only pipelines that contain a join
         "oracle_clauses": [r"c03-.*", r"c05-parse", r"c05-name-capture", r"unreadable-.*", r"c06-let-named-join-alias"],
-        "lean_targets": ["PqlModel.Props.C03", "PqlModel.Props.C02Split", "PqlModel.Props.C05SplitRefines", "PqlModel.Props.C03Semantics", "PqlModel.Props.C03Chain", "PqlModel.Props.C03ChainTake", "PqlModel.Props.C05ParseStatement", "PqlModel.Props.C03Full", "PqlModel.Props.C02EndToEnd", "PqlModel.Props.C05Parsed", "PqlModel.Props.C11Compile", "PqlModel.Props.C02EndToEndSource", "PqlModel.Props.C02SplitImperative", "PqlModel.Props.C02ProgramNames", "PqlModel.Props.C02SplitIR", "PqlModel.Props.C03JoinCondIR"],
+        "lean_targets": ["PqlModel.Props.C03", "PqlModel.Props.C02Split", "PqlModel.Props.C05SplitRefines", "PqlModel.Props.C03Semantics", "PqlModel.Props.C03Chain", "PqlModel.Props.C03ChainTake", "PqlModel.Props.C05ParseStatement", "PqlModel.Props.C03Full", "PqlModel.Props.C02EndToEnd", "PqlModel.Props.C05Parsed", "PqlModel.Props.C11Compile", "PqlModel.Props.C02EndToEndSource", "PqlModel.Props.C02SplitImperative", "PqlModel.Props.C02ProgramNames", "PqlModel.Props.C02SplitIR", "PqlModel.Props.C03JoinCondIR", "PqlModel.Props.IRHeadlinesA"],
         "facts": ["joinTypes", "leftJoinTableAlias", "rightJoinTableAlias", "splitIR", "splitLoop", "splitCases", "splitParams", "joinCondIR"],
         "rule": "EVAL on pipelines with joins: all three kinds, bare / explicit / mixed conditions, operators before the join, "
                 "multi-operator right sides, nested and sequential joins (depth <= 2 random, corpus of shapes); evaluated as for C02; "
